@@ -1076,7 +1076,8 @@ def assemble_item(node, out):
             m = re.match(r"(\s*(?:pub(?:\([^)]*\))?\s+)?)const\s+(\w+)\s*:\s*([^=]+?)\s*=\s*(.*);\s*$", text, re.S)
             if not m:
                 raise ExtractError("%s: N6 shape not found" % where)
-            new = "%sexec const %s: %s ensures %s == %s { %s }" % (m.group(1), m.group(2), m.group(3), m.group(2), opts["ensures"], m.group(4))
+            pf = ("proof { %s; } " % opts["proof"]) if "proof" in opts else ""
+            new = "%sexec const %s: %s ensures %s == %s { %s%s }" % (m.group(1), m.group(2), m.group(3), m.group(2), opts["ensures"], pf, m.group(4))
             out.count("N6", where)
             new = apply_text_norms(new, mask_source(new), out, where)
             out.emit(new, ("repo", rel, sf.line_of(it.start)))
